@@ -119,6 +119,9 @@ static void run_case(const struct h_case * c)
 {
     int i, k, started = 0;
 
+    /* cases are tiny; a broken ring makes cstl_dlist_foreach spin forever, so do
+     * not wait for hcommon.h's 20 s alarm */
+    if (!h_nofork) alarm(3);
     nkeys = 0; nlists = 1; cmpmode = 0; cmp_calls = 0;
     memset(pool, 0, sizeof(pool));
     for (i = 0; i < c->nlines; i++) {
